@@ -5,7 +5,7 @@ import (
 	"errors"
 	"fmt"
 	"io"
-	"strconv"
+	"math/big"
 	"strings"
 
 	"github.com/freeconf/yang/node"
@@ -72,16 +72,32 @@ func jsonExactNumbers(v interface{}) interface{} {
 			x[i] = jsonExactNumbers(e)
 		}
 	case json.Number:
-		if f, err := x.Float64(); err == nil && (f >= 1<<53 || f <= -(1<<53)) {
-			if i, err := x.Int64(); err == nil {
-				return i
+		f, err := x.Float64()
+		if err == nil && f < 1<<53 && f > -(1<<53) {
+			return f
+		}
+		// beyond what float64 holds exactly: whole numbers of 64 bits are kept as
+		// such, however they are written (1.0e19), any other number is only turned
+		// into a float64 when that is the very same number. Otherwise the text
+		// is kept and the conversion to the type of the leaf decides.
+		exact, valid := new(big.Rat).SetString(x.String())
+		if !valid {
+			return f
+		}
+		if exact.IsInt() {
+			if exact.Num().IsInt64() {
+				return exact.Num().Int64()
 			}
-			if u, err := strconv.ParseUint(x.String(), 10, 64); err == nil {
-				return u
+			if exact.Num().IsUint64() {
+				return exact.Num().Uint64()
 			}
 		}
-		f, _ := x.Float64()
-		return f
+		if err == nil {
+			if same := new(big.Rat).SetFloat64(f); same != nil && same.Cmp(exact) == 0 {
+				return f
+			}
+		}
+		return x
 	}
 	return v
 }
